@@ -1,13 +1,24 @@
 #!/bin/bash
-# Applies a seeded-defect patch to /repo, runs the given checks (quick tier), and ALWAYS reverts /repo.
+# Applies a seeded-defect patch to a SCRATCH CLONE of /repo (under /tmp, removed afterwards), runs the given
+# checks against that clone (VERIF_REPO), and leaves /repo untouched - so several experiments can run in parallel.
 #   tools/try_patch.sh <patch.diff> <Cxx> [<Cyy> ...]     (env TIER=quick|thorough, VERIF_SEED)
+# With INPLACE=1 the patch is applied to /repo itself and reverted afterwards (the way the brief describes).
 # Prints one line per check: CAUGHT (exit 1 + VIOLATION line) / MISSED (exit 0) / BROKEN (other).
 cd "$(dirname "$0")/.."
 patch=$(readlink -f "$1"); shift
 tier=${TIER:-quick}
-if [ -n "$(git -C /repo status --porcelain)" ]; then echo "/repo is dirty, refusing"; exit 2; fi
-git -C /repo apply "$patch" || { echo "patch does not apply"; exit 2; }
-trap 'git -C /repo checkout -- . ; git -C /repo clean -fdq' EXIT
+if [ "${INPLACE:-0}" = 1 ]; then
+  if [ -n "$(git -C /repo status --porcelain)" ]; then echo "/repo is dirty, refusing"; exit 2; fi
+  git -C /repo apply "$patch" || { echo "patch does not apply"; exit 2; }
+  trap 'git -C /repo checkout -- . ; git -C /repo clean -fdq' EXIT
+  unset VERIF_REPO
+else
+  scratch=$(mktemp -d /tmp/seedrepo.XXXXXX)
+  trap 'rm -rf "$scratch"' EXIT
+  git clone -q /repo "$scratch/repo" && git -C "$scratch/repo" apply "$patch" || { echo "patch does not apply"; exit 2; }
+  export VERIF_REPO="$scratch/repo"
+  export VERIF_ROOT_OUT="$scratch/out"
+fi
 for p in "$@"; do
   out=$(./check $p $tier 2>&1); rc=$?
   n=$(echo "$out" | grep -c "^VIOLATION property=$p")
